@@ -69,6 +69,8 @@ def wrapper_case(case):
     n = 12
     t = np.arange(n, dtype=float)
     df = pd.DataFrame({"a": t * t - 3 * t + 0.5, "b": (np.arange(n) * 3 - 7).astype(np.int64), "s": [f"r{k}" for k in range(n)]})
+    if cfg["samples2"] == 3 or cfg["fn"] == "detrend":
+        df.index = np.arange(n) * 2 + 5            # a non-default index (row-sliced / time-indexed frames)
     df0 = df.copy(deep=True)
     cols = {"none": None, "a": ["a"], "ab": ["a", "b"], "as": ["a", "s"], "zz": ["a", "zz"]}[cfg["sel"]]
     fs = 4.0
@@ -100,6 +102,8 @@ def wrapper_case(case):
         return probs
     k = outc["ntrunc"] if outc["rows"] else 0
     sl = slice(k, n - k) if k else slice(None)
+    if not r.index.equals(df0.index[sl] if len(r) else r.index):
+        probs.append(("index_changed", list(r.index)[:4], list(df0.index[sl])[:4]))
     for c in ("a", "b", "s"):
         tr = c in outc["transformed"]
         src = df0[c].to_numpy()
